@@ -227,6 +227,24 @@ def h_head(n0: int, n1: int, n2: int, k: int, nrows: int) -> int:
     return got
 
 
+def h_head_small(n0: int, n1: int, n2: int, k: int, nrows: int) -> int:
+    """
+    pre: 1 <= k <= 3 and 1 <= n0 <= 6 and 1 <= n1 <= 6 and 1 <= n2 <= 6 and 0 <= nrows <= 20
+    post: __return__ == min(nrows, sum([n0, n1, n2][:k]))
+    """
+    # the same over small non-empty row groups (every witness can be written as a real file)
+    rows = [n0, n1, n2][:k]
+    h = Handle(rows)
+    got = h.head(nrows)
+    s = h.sliced
+    assert s.start in (None, 0) and s.step in (None, 1)
+    return got
+
+
+def replay_h_head_small(n0, n1, n2, k, nrows):
+    return replay_h_head(n0, n1, n2, k, nrows)
+
+
 def replay_h_head(n0, n1, n2, k, nrows):
     import tempfile, os, shutil
     import pandas as pd
